@@ -62,7 +62,7 @@ MC_CONFIGS = {
                      ("c02-nf4", dict(nf=4, n=2, max_inputs=1, dirs=False, modes="BuildOnly", fails="NoFail", max_fail=0, liveness=False))],
     },
     "C03": {
-        "quick": [("c03-dirs", dict(nf=3, n=2, max_inputs=2, dirs=True, modes="BuildClean", fails="NoFail", max_fail=0)),
+        "quick": [("c03-dirs", dict(nf=3, n=2, max_inputs=1, dirs=True, modes="BuildClean", fails="NoFail", max_fail=0)),
                   ("c03-n1", dict(nf=3, n=1, max_inputs=2, dirs=False, modes="BuildOnly", fails="NoFail", max_fail=0))],
         "thorough": [("c03-dirs", dict(nf=3, n=2, max_inputs=3, dirs=True, modes="BuildClean", fails="NoFail", max_fail=0)),
                      ("c03-n1", dict(nf=3, n=1, max_inputs=3, dirs=True, modes="BuildOnly", fails="NoFail", max_fail=0)),
@@ -159,7 +159,15 @@ def scenario_sets(rng):
                 fail[f - 1] = kind
                 for inp in ((1,) if quick else (1, 2, 3)):
                     s.append(dict(nf=nf, deps=digraph(nf, g), fail=fail, inputs=[["file", inp]], n=2, alias=g))
-    sets.append(("one failing file at each position x pre/post N=2", s, 60 if quick else 1000))
+    # the faulty file and its dependencies scheduled independently of each other (directory scan, several inputs)
+    for g in (allg if not quick else sample(0.25)):
+        for f in range(1, nf + 1):
+            for kind in ("pre", "post"):
+                fail = ["none"] * nf
+                fail[f - 1] = kind
+                for inputs, rec, n in (([["dir", 4]], True, 2), ([["file", 1], ["file", 2]], False, 3), ([["file", 3], ["file", 1]], False, 1)):
+                    s.append(dict(nf=nf, deps=digraph(nf, g), fail=fail, inputs=inputs, recursive=rec, n=n, alias=g))
+    sets.append(("one failing file at each position x pre/post, single / several / directory inputs", s, 40 if quick else 1000))
     s = []
     for g in sample(0.125 if quick else 0.5):
         for inputs in ([["file", 1]], [["dir", 4]], [["file", 2], ["file", 2]]):
@@ -246,38 +254,66 @@ CHECK_DEADLOCK FALSE
 """
 
 
+OBS_PROPS = {"NoC02": "C02", "NoC03": "C03", "NoC04": "C04", "NoC05": "C05", "NoC18": "C18"}
+
+
+def observational_check(trace_lines, wd, tag):
+    """second opinion on one run that Sched.tla does not accept: SchedObs.tla states only what any coordinator must
+    obey. Returns (properties whose rules are broken, detail)"""
+    tf = os.path.join(wd, f"obs-{tag}.ndjson")
+    with open(tf, "w") as f:
+        f.writelines(trace_lines)
+    r = run_tlc("SchedObs.tla", os.path.join(SPEC, "SchedObs.cfg"), f"obs-{os.path.basename(wd)}-{tag}", workers=1, timeout=600,
+                env_extra={"TRACE": tf}, java_opts="-Xss1g -Xmx2g -Dtlc2.tool.queue.IStateQueue=StateDeque", check=False)
+    if r["ok"]:
+        return [], ""
+    broken = [OBS_PROPS[v] for v in r["violated"] if v in OBS_PROPS]
+    if not broken:
+        raise ToolError("SchedObs validation broke:\n" + r["out"][-3000:])
+    m = re.search(r"bad = (\{.*?\})\n", r["out"], re.S)
+    return broken, (m.group(1) if m else "")
+
+
 def validate_chunk(args):
+    """validate a list of recorded runs against Sched.tla; a run the model rejects is set aside (with the reason) and the
+    rest of the chunk is validated again, so that every run gets a verdict"""
     idx, key, traces, wd = args
     nf, n = key
-    tf = os.path.join(wd, f"chunk-{idx}.ndjson")
-    with open(tf, "w") as f:
-        for t in traces:
-            f.writelines(t)
     cfg = os.path.join(wd, f"chunk-{idx}.cfg")
     open(cfg, "w").write(TRACE_CFG.format(nf=nf, n=n))
-    r = run_tlc("SchedTrace.tla", cfg, f"tr-{os.path.basename(wd)}-{idx}", workers=1, timeout=1800,
-                env_extra={"TRACE": tf}, java_opts="-Xss1g -Xmx3g -Dtlc2.tool.queue.IStateQueue=StateDeque", check=False)
-    res = dict(idx=idx, key=key, traces=len(traces), events=sum(len(t) for t in traces), ok=r["ok"],
-               states=r["states"], violated=r["violated"], reject=None, trace=None)
-    if not r["ok"]:
+    res = dict(idx=idx, key=key, traces=len(traces), events=sum(len(t) for t in traces), states=0, rejected=[])
+    remaining = list(traces)
+    for attempt in range(8):
+        if not remaining:
+            break
+        tf = os.path.join(wd, f"chunk-{idx}.ndjson")
+        with open(tf, "w") as f:
+            for t in remaining:
+                f.writelines(t)
+        r = run_tlc("SchedTrace.tla", cfg, f"tr-{os.path.basename(wd)}-{idx}", workers=1, timeout=1800,
+                    env_extra={"TRACE": tf}, java_opts="-Xss1g -Xmx3g -Dtlc2.tool.queue.IStateQueue=StateDeque", check=False)
+        res["states"] += r["states"]
+        if r["ok"]:
+            break
         m = re.search(r'TRACE REJECTED at event",\s*(\d+)', r["out"])
         pos = None
         if m:
             pos = int(m.group(1))
         elif r["violated"]:
-            # an invariant failed: the depth of the counterexample is the event index
             st = re.findall(r"^State (\d+):", r["out"], re.M)
             pos = int(st[-1]) - 1 if st else None
-        if pos is None and not r["violated"]:
+        if pos is None:
             raise ToolError("trace validation broke:\n" + r["out"][-3000:])
-        # locate the run the event belongs to
         acc = 0
-        for t in traces:
-            if pos is not None and acc + len(t) >= pos:
-                res["trace"] = [json.loads(x) for x in t]
-                res["reject"] = pos - acc
+        for ti, t in enumerate(remaining):
+            if acc + len(t) >= pos:
+                invs = [i for i in r["violated"] if not i.startswith("Temporal")]
+                res["rejected"].append(dict(trace=t, at=pos - acc, invariants=invs))
+                remaining = remaining[:ti] + remaining[ti + 1:]
                 break
             acc += len(t)
+        else:
+            break
     return res
 
 
@@ -307,26 +343,35 @@ def validate_traces(rep, prop, out_dirs, rng, limit):
         for r in ex.map(validate_chunk, chunks):
             results.append(r)
     events = sum(r["events"] for r in results)
+    drift = 0
     for r in results:
-        if r["ok"]:
-            continue
-        invs = [i for i in r["violated"] if not i.startswith("Temporal")]
-        ev = r["trace"][r["reject"] - 1] if r["trace"] and r["reject"] and r["reject"] <= len(r["trace"]) else None
-        if invs:
-            for inv in invs:
-                p = INV_PROP.get(inv, "C03")
-                msg = f"trace of the real coordinator violates {inv} of Sched.tla at event {r['reject']}: {ev}"
+        for k, rej in enumerate(r["rejected"]):
+            trace = [json.loads(x) for x in rej["trace"]]
+            ev = trace[rej["at"] - 1] if 0 < rej["at"] <= len(trace) else None
+            if rej["invariants"]:
+                for inv in rej["invariants"]:
+                    p = INV_PROP.get(inv, "C03")
+                    msg = f"trace of the real coordinator violates {inv} of Sched.tla at event {rej['at']}: {ev}"
+                    if p == prop:
+                        rep.violation(f"trace:{inv}", msg, dict(trace=trace, at=rej["at"]))
+                    else:
+                        rep.note(f"(belongs to {p}) " + msg)
+                continue
+            # no action of Sched.tla matches: ask the observational specification whether a property-level rule is broken
+            broken, detail = observational_check(rej["trace"], wd, f"{r['idx']}-{k}")
+            if not broken:
+                drift += 1
+                rep.note(f"MODEL-DRIFT: a recorded run is not a behaviour of Sched.tla (event {rej['at']}: {ev}) but obeys every rule of "
+                         f"SchedObs.tla: no property is violated on it")
+                continue
+            for p in broken:
+                msg = (f"trace of the real coordinator breaks a rule of SchedObs.tla for {p}: {detail} (Sched.tla has no matching action for "
+                       f"event {rej['at']}: {ev})")
                 if p == prop:
-                    rep.violation(f"trace:{inv}", msg, dict(trace=r["trace"], at=r["reject"]))
+                    rep.violation(f"trace:obs:{p}", msg, dict(trace=trace, at=rej["at"], broken=detail))
                 else:
-                    rep.note(f"(belongs to {p}) " + msg)
-        else:
-            msg = (f"trace of the real coordinator is not a behaviour of Sched.tla: event {r['reject']} "
-                   f"{ev} has no matching action")
-            if prop == "C03":
-                rep.violation("trace:unmatched", msg, dict(trace=r["trace"], at=r["reject"]))
-            else:
-                rep.note("(coordinator protocol, reported by C03) " + msg)
+                    rep.note(f"(belongs to {p}) " + msg[:400])
+    rep.coverage["model_drift_runs"] = drift
     rep.coverage["traces_recorded_distinct"] = total
     rep.coverage["traces_validated_against_impl"] = picked
     rep.coverage["trace_events_validated"] = events
@@ -364,10 +409,6 @@ def conformance(rep, prop):
     rep.coverage["schedule_sets"] = summary
     limit = 2500 if tier() == "quick" else 60000
     results = validate_traces(rep, prop, out_dirs, rng, limit)
-    # one validated trace as a sample
-    for r in results:
-        if r["ok"]:
-            break
     rep.coverage["samples"] = samples[:4]
     return out_dirs
 
@@ -381,6 +422,9 @@ def check(prop):
     ]
     model_check(rep, prop)
     conformance(rep, prop)
+    if prop in ("C02", "C03", "C05"):
+        n = replay_behaviours(rep, prop)
+        rep.coverage["traces_validated_against_impl"] = rep.coverage.get("traces_validated_against_impl", 0) + n
     if prop == "C04":
         rep.coverage.update(io_faults(rep, workdir("C04-faults"), random.Random(seed()), tier() == "quick"))
     rep.coverage["exhaustive"] = False
@@ -510,3 +554,118 @@ DIRECTIVE_FAULTS = {
     "unused tag at end of file": "TXTPP#tag NEVER_USED\n",
     "temp target ending in .txtpp": "-TXTPP#temp gen.txtpp\n-x\n",
 }
+
+
+# ---------------------------------------------------------------------------------------------
+# S->I: behaviours generated by TLC (simulation mode) replayed into the real coordinator
+SIM_CFG = """SPECIFICATION SimSpec
+CONSTANTS
+  NF = {nf}
+  N = 8
+  MaxInputs = 2
+  DirFiles <- NoDirFiles
+  DirSubs <- NoDirSubs
+  Modes <- BuildOnly
+  FailKinds <- NoFail
+  MaxFail = 0
+  Panics = FALSE
+INVARIANTS EmitBehaviour
+CHECK_DEADLOCK FALSE
+"""
+
+
+def behaviour_to_replay(states):
+    """derive the scenario, the schedule (wishes) and the expected observations from a sequence of spec states"""
+    s0 = states[0]
+    nf = len(s0["deps"])
+    scen = dict(nf=nf, deps=s0["deps"], inputs=s0["inputs"], n=8, alias=0, policy="guided", reps=1)
+    wishes, polls = [], []
+
+    def key(t):
+        return (t["kind"], t["id"], t["first"])
+    for a, b in zip(states, states[1:]):
+        wa, wb = {key(t) for t in a["working"]}, {key(t) for t in b["working"]}
+        ra, rb = {key(t) for t in a["running"]}, {key(t) for t in b["running"]}
+        if rb - ra:                      # Work(t): the body is over -> the gate decision "begin" covers Begin+Work
+            (t,) = rb - ra
+            wishes.append(["begin", t[0], t[1], t[2]])
+        elif ra - rb and len(b["chan"]) == len(a["chan"]) + 1:      # End(t)
+            (t,) = ra - rb
+            wishes.append(["end", t[0], t[1], t[2]])
+        elif b["done"] == a["done"] + 1:                             # CoordRecv
+            wishes.append(["poll"])
+            polls.append(dict(done=a["done"], total=a["total"], edges=a["edges"], counts=a["counts"], fin=a["fin"]))
+        elif a["pc"] == "loop" and b["pc"] == "drop" and b["done"] == a["done"]:   # CoordExit
+            wishes.append(["poll"])
+            polls.append(dict(done=a["done"], total=a["total"], edges=a["edges"], counts=a["counts"], fin=a["fin"]))
+    last = states[-1]
+    scen["wishes"] = wishes
+    exp = dict(polls=polls, verdict=last["verdict"], cmdRuns=last["cmdRuns"], disk=last["disk"], finals=last["finals"])
+    return scen, exp
+
+
+def replay_behaviours(rep, prop):
+    wd = workdir(f"{prop}-s2i")
+    quick = tier() == "quick"
+    jobs = []
+    nproc = 24 if quick else 240
+    for i in range(nproc):
+        nf = (3, 4, 5)[i % 3]
+        cfg = os.path.join(wd, f"sim-{i}.cfg")
+        open(cfg, "w").write(SIM_CFG.format(nf=nf))
+        jobs.append((cfg, i))
+
+    def one(job):
+        cfg, i = job
+        return run_tlc("MCSched.tla", cfg, f"sim-{prop}-{i}", workers=1, timeout=600,
+                       extra=("-simulate", "num=10", "-depth", "200", "-seed", str(seed() * 1000 + i)), check=False)
+    with cf.ThreadPoolExecutor(max_workers=12) as ex:
+        outs = list(ex.map(one, jobs))
+    from pure_engine import parse_emitted
+    scens, exps = [], []
+    seen = set()
+    for r in outs:
+        for states in parse_emitted(r["out"], "BEHAVIOUR"):
+            sc, exp = behaviour_to_replay(states)
+            k = json.dumps([sc["deps"], sc["inputs"], sc["wishes"]])
+            if k in seen:
+                continue
+            seen.add(k)
+            scens.append(sc)
+            exps.append(exp)
+    if not scens:
+        raise ToolError("TLC simulation produced no behaviours")
+    res, out = run_vh_sched("s2i", scens, None, wd)
+    by_index = {r["index"]: r for r in res.get("replays", [])}
+    replayed = 0
+    for i, (sc, exp) in enumerate(zip(scens, exps)):
+        r = by_index.get(i)
+        if r is None:
+            continue
+        replayed += 1
+        ctx = f"[TLC behaviour replayed: deps {sc['deps']} inputs {sc['inputs']} schedule {sc['wishes']}]"
+        polls = [dict(done=e["done"], total=e["total"], edges=e["edges"], counts=e["counts"], fin=e["fin"]) for e in r["events"] if e["e"] == "poll"]
+        key = f"s2i:{json.dumps(sc['deps'])}:{json.dumps(sc['inputs'])}"
+        probs = []
+        if polls != exp["polls"]:
+            k = next((j for j, (a, b) in enumerate(zip(polls, exp["polls"])) if a != b), min(len(polls), len(exp["polls"])))
+            probs.append(("C03", f"coordinator state diverges from Sched.tla at receive #{k + 1}: code {polls[k] if k < len(polls) else None}, spec {exp['polls'][k] if k < len(exp['polls']) else None}"))
+        want = "ok" if exp["verdict"] == "ok" else "err"
+        if r["verdict"] != want:
+            probs.append(("C05", f"verdict {r['verdict']}, Sched.tla ends with {exp['verdict']}"))
+        marks = {}
+        for l in r["markers"].splitlines():
+            if l.startswith("m"):
+                marks[int(l[1:])] = marks.get(int(l[1:]), 0) + 1
+        for f in range(1, sc["nf"] + 1):
+            if marks.get(f, 0) != exp["cmdRuns"][f - 1]:
+                probs.append(("C03", f"command of f{f} ran {marks.get(f, 0)} times, Sched.tla says {exp['cmdRuns'][f - 1]}"))
+            if r["fresh"][str(f)] != (exp["disk"][f - 1] == "fresh") and r["verdict"] == "ok":
+                probs.append(("C02", f"output of f{f} fresh={r['fresh'][str(f)]}, Sched.tla says disk={exp['disk'][f - 1]}"))
+        for p, msg in probs:
+            if p == prop:
+                rep.violation(key, msg + " " + ctx, dict(scenario=sc, expected=exp, observed={k: v for k, v in r.items() if k != 'events'}, events=r["events"]))
+            else:
+                rep.note(f"(belongs to {p}) {msg} {ctx}"[:400])
+    rep.coverage["tlc_behaviours_replayed_into_impl"] = replayed
+    return replayed
